@@ -109,10 +109,12 @@ props["C07"] = {
 
 props["C06"] = {
     "level": "model_checking", "validate": 6,
+    "unreached_ok": ["plan-ends-at-target"],
     "runs": [
         run("root", "VxC06Compact", {"K": 2, "C": 3, "DST": 1}, {"K": 3, "C": 3, "DST": 1}),
         run("root", "VxC06Compact", {"K": 2, "C": 2, "DST": 2}, {"K": 2, "C": 3, "DST": 2}, note="level 1 -> level 2, multi-TXID inputs"),
         run("root", "VxC08Latest", {"N": 3, "M": 5}, {"N": 4, "M": 6}, note="whichever mix of levels a replica holds, the plan for the latest state is a valid chain and is found when one exists (shared with C08)"),
+        run("root", "VxC06CacheRace", {}, {}, note="the newest-file cache when a compaction finishes while another monitor's listing is in flight (possible only if the cache is not locked during the listing)"),
         run("root", "VxC06DBCompact", {"N": 3}, {"N": 4}, note="DB.Compact(1) with the DB's own compactor wiring and a local directory that is a suffix of / one ahead of the replica, followed by level-0 retention"),
         run("root", "VxC02Snapshot", {}, {}, note="level-9 snapshots (DB.Snapshot's page source): size and every page equal the state at the advertised position, also after a shrink (shared with C02)"),
     ],
